@@ -1551,8 +1551,19 @@ def replay_line(ctx, rep):
         except (ValueError, IndexError) as ex:
             print("(case not reconstructed for the oracle: %s)" % ex)
     elif o:
-        for orc in (match_oracle, addr_oracle, xff_oracle):
-            v = v or orc(line, o[0])
+        op = line.split(" ")[0]
+        if op in ("sfx", "vpfx", "kpfx", "ksfx", "poe", "chk", "lcs"):
+            v = match_oracle(line, o[0])
+        elif op in ("pton", "gai", "utf8"):
+            v = addr_oracle(line, o[0])
+        elif op in ("xfa", "xff"):
+            if op == "xff":
+                t = line.split(" ")
+                fwd = None if t[1] == "-" else [tuple(unhx(x) for x in e.split("=")) for e in t[1].split(",")]
+                hdrs = None if t[2] == "-" else [unhx(x) for x in t[2].split(",")]
+                fields = [tuple(unhx(x) for x in e.split(":")) for e in t[4].split(";")]
+                _xff_cases[line] = (fwd, hdrs, unhx(t[3]), fields)
+            v = xff_oracle(line, o[0])
     print("oracle:", v)
     if o != m or rc != 0 or v:
         print("VIOLATION property=%s replay=%s" % (ctx.pid, "(replayed)"))
